@@ -1696,6 +1696,8 @@ def _handle_count_stage(in_collection, database, options):
         raise OperationFailure('the count field cannot be a $-prefixed path')
     elif '.' in options:
         raise OperationFailure("the count field cannot contain '.'")
+    if not in_collection:
+        return []
     return [{options: len(in_collection)}]
 
 
